@@ -596,6 +596,7 @@ func runC13(c *report.Ctx) {
 	ruleMnemonicLengthGateAdmitsEverySentence(c)
 	ruleMnemonicWordCount(c)
 	ruleWordMapExact(c)
+	ruleStoredEntropyIsRaw(c)
 }
 
 func ifOf(r ssa.Instruction) *ssa.If {
